@@ -135,6 +135,43 @@ def defaulting(v):
     return out if found[0] else None
 
 
+def opt_litreject(profile: str):
+    """Run in an interpreter started with -O: a value that is no member of a Literal is rejected there as well."""
+    import typelib
+    defs, types, _ = vs.universe(profile)
+    env = vs.make_env(defs)
+    warnings.simplefilter("ignore")
+    events, meta = [], []
+    for T in types:
+        if T["k"] != "lit":
+            continue
+        M = typelib.marshaller(env.annotation(T))
+        members = [lit_value(x) for x in T["vs"]]
+        for nm in ("zz", 99, None, 2.5):
+            if any(nm == m and type(nm) is type(m) for m in members) or nm in members:
+                continue
+            w, _ = vs.out_of(M, nm)
+            events.append({"ev": "litreject", "T": T, "w": w})
+            meta.append(("nonmember under python -O", repr(nm)))
+    return {"events": events, "meta": meta, "optimized": not __debug__}
+
+
+def _opt_child(profile: str):
+    import subprocess
+    import sys
+    verif = __file__.rsplit("/harness/", 1)[0]
+    code = (f"import sys, json; sys.path.insert(0, {verif!r}); from harness.drivers import c06; "
+            f"print('@@OPT@@' + json.dumps(c06.opt_litreject({profile!r})))")
+    p = subprocess.run([sys.executable, "-O", "-B", "-c", code], capture_output=True, text=True, timeout=1800)
+    line = next((ln for ln in p.stdout.splitlines() if ln.startswith("@@OPT@@")), None)
+    if line is None:
+        raise tlc.MachineryError("optimised-interpreter pass failed: " + (p.stderr or p.stdout)[-400:])
+    out = json.loads(line[7:])
+    if not out["optimized"]:
+        raise tlc.MachineryError("the -O child did not run optimised")
+    return out
+
+
 DEFS: list = [None]
 
 
@@ -200,6 +237,9 @@ def collect(ctx: Ctx, profile: str):
                     w = {"k": "ok", "r": {"k": "str", "cls": "str", "s": "marshal() and marshaller() disagree"}}
                 events.append({"ev": "litreject", "T": T, "w": w})
                 meta.append(("nonmember", repr(nm)))
+    opt = _opt_child(profile)
+    events += opt["events"]
+    meta += [tuple(m) for m in opt["meta"]]
     # passive source: every marshal() call the repository's own test suite makes (bytes-like outputs are outside C06)
     from .. import suite
     for m in suite.record()["marshal"]:
